@@ -39,11 +39,11 @@ var ruleSnifferMap = &core.Rule{ID: "R12.1", Min: 4,
 		}
 		if cm.html != nil {
 			s.Check(reach(cm.html, usesTok) && !reach(cm.html, usesXML), "text/html -> HTML sniffer", c.Pos(cm.html.Pos()), core.FName(cm.html)+" reaches html.NewTokenizer", "the function registered for text/html does not run the HTML meta prescan (or runs the XML decoder)")
-			s.Check(reachesFn(cm.html, cm.plain, map[*ssa.Function]bool{}), "text/html falls back to plain sniffing", c.Pos(cm.html.Pos()), "reaches the plain sniffer", "HTML sniffer never falls back to byte sniffing")
+			s.Check(reachesFn(cm.html, cm.plain, map[*ssa.Function]bool{}) || reachesFn(cm.html, getPlain(c).g, map[*ssa.Function]bool{}), "text/html falls back to plain sniffing", c.Pos(cm.html.Pos()), "reaches the plain sniffer", "HTML sniffer never falls back to byte sniffing")
 		}
 		if cm.xml != nil {
 			s.Check(reach(cm.xml, usesXML) && !reach(cm.xml, usesTok), "text/xml -> XML sniffer", c.Pos(cm.xml.Pos()), core.FName(cm.xml)+" reaches xml.NewDecoder", "the function registered for text/xml does not read the XML declaration (or runs the HTML tokenizer)")
-			s.Check(reachesFn(cm.xml, cm.plain, map[*ssa.Function]bool{}), "text/xml falls back to plain sniffing", c.Pos(cm.xml.Pos()), "reaches the plain sniffer", "XML sniffer never falls back to byte sniffing")
+			s.Check(reachesFn(cm.xml, cm.plain, map[*ssa.Function]bool{}) || reachesFn(cm.xml, getPlain(c).g, map[*ssa.Function]bool{}), "text/xml falls back to plain sniffing", c.Pos(cm.xml.Pos()), "reaches the plain sniffer", "XML sniffer never falls back to byte sniffing")
 		}
 		if cm.plain != nil {
 			s.Check(reach(cm.plain, usesValid) && !reach(cm.plain, usesTok) && !reach(cm.plain, usesXML), "text/plain -> plain sniffer", c.Pos(cm.plain.Pos()), core.FName(cm.plain)+" validates UTF-8, no markup parsing", "the function registered for text/plain is not the byte sniffer")
